@@ -24,7 +24,7 @@ def classify(prop, v, **ctx):
     v.setdefault("finding", None)
     if v.get("finding"):
         return v["finding"]
-    generic = (history_dependent_rounding_fold, inconsistent_assumptions_after_history)
+    generic = (history_dependent_rounding_fold, inconsistent_assumptions_after_history, trig_of_inverse_trig_overflow, saturated_sigmoid_linearisation)
     for fn in MATCHERS.get(prop, []) + list(generic):
         try:
             fid = fn(v, prop=prop, **ctx) if fn in generic else fn(v, **ctx)
@@ -33,6 +33,71 @@ def classify(prop, v, **ctx):
         if fid:
             v["finding"] = fid
             return fid
+    return None
+
+
+_COMPOSITIONS = {("sin", "atan"), ("cos", "atan"), ("sin", "acos"), ("cos", "asin"), ("tan", "asin"), ("tan", "acos")}
+
+
+def trig_of_inverse_trig_overflow(v, prop="", text="", ref=None, **kw):
+    """sympy rewrites sin(atan(x)) -> x/sqrt(x**2 + 1) (and the like) when the expression is built: for |x| > 1e154 the
+    square overflows and the generated code returns 0 / nan / inf where the composition is simply +-1.  Predicate: the
+    violating quantity's closure holds such a composition whose inner argument exceeds 1e150 at the violating point."""
+    import ast
+
+    if prop not in ("C01", "C02", "C03") or v.get("kind") != "value" or ref is None:
+        return None
+    d = v.get("detail", {})
+    pt = v.get("_point") or d.get("point")
+    name = (d.get("root_cause") or {}).get("name") or d.get("name")
+    if name in ref.derivs:
+        name = ref.derivs[name]
+    if not pt or name not in ref.assigns:
+        return None
+    full = dict(ref.default_point(), **pt)
+    ev = ref.evaluator(full)
+    for n in closure_names(ref, name):
+        for k in ast.walk(ref._parsed[n]):
+            if isinstance(k, ast.Call) and k.args and isinstance(k.args[0], ast.Call):
+                f, g = getattr(k.func, "id", ""), getattr(k.args[0].func, "id", "")
+                if (f, g) in _COMPOSITIONS and k.args[0].args:
+                    try:
+                        inner = ev.expr(k.args[0].args[0], ref._src[n])
+                    except Exception:
+                        continue
+                    if abs(inner.v) > 1e150:
+                        return f"{prop}-trig-of-inverse-trig-rewritten-algebraically-overflows"
+    return None
+
+
+def saturated_sigmoid_linearisation(v, prop="", text="", ref=None, **kw):
+    """The Rush-Larsen linearisation of a saturated ContinuousConditional is inf/inf = nan, `abs(nan) > delta` is false and
+    the generated step is the Euler step (listed for C06; the same executions are seen by every check that compares a
+    Rush-Larsen step with the reference)."""
+    if prop not in ("C02", "C03") or v.get("kind") != "value" or ref is None or "ContinuousConditional" not in text:
+        return None
+    d = v.get("detail", {})
+    if d.get("fn") not in ("generalized_rush_larsen", "hybrid_rush_larsen"):
+        return None
+    pt = v.get("_point") or d.get("point")
+    name = d.get("name")
+    state = name if name in ref.derivs else next((s_ for s_, dn in ref.derivs.items() if dn == name), None)
+    got = d.get("got", d.get("asan_build"))
+    if not pt or state is None or got is None or d.get("dt") is None:
+        return None
+    from ..refmodel import evalref as E
+    from ..refmodel import schemes as S
+
+    full = dict(ref.default_point(), **pt)
+    try:
+        res, _ = ref.evaluate(full)
+        eu = S.expected_update(ref, full, res, state, d["dt"], "euler", 1e-8)[0]
+        before = E.COUNTERS.get("saturated_sigmoid", 0)
+        S.own_g(ref, full, state)
+    except Exception:
+        return None
+    if E.COUNTERS.get("saturated_sigmoid", 0) > before and abs(got - float(eu.v)) <= 1e-9 * max(1.0, abs(float(eu.v))):
+        return f"{prop}-linearisation-of-saturated-sigmoid-is-nan"
     return None
 
 
